@@ -231,13 +231,23 @@ def run(ctx) -> None:
     rep.floor("C16.R6", len(regs), 3)
 
     # ------------------------------------------------------------------ R4 selection ladder
-    svc_assign = [n for n in walk_own(F.node) if isinstance(n, ast.Assign) and isinstance(n.targets[0], ast.Name) and n.targets[0].id == service_p]
-    if not svc_assign:
+    from ..facts import Facts
+
+    facts = Facts(a, F, rd)
+    env_defs = [n for n in cfg.live_nodes() if n.kind == "stmt" and isinstance(n.ast, ast.Assign) and isinstance(n.ast.targets[0], ast.Name) and n.ast.targets[0].id == service_p]
+    if not env_defs:
         rep.violate("C16.R4", F, F.node, "ASPHALT_SERVICE is never consulted")
-    else:
-        v = svc_assign[0].value
-        ok = isinstance(v, ast.BoolOp) and isinstance(v.op, ast.Or) and len(v.values) == 2 and isinstance(v.values[0], ast.Name) and v.values[0].id == service_p and isinstance(v.values[1], ast.Call) and call_name(v.values[1]) in ("getenv", "get") and any(is_const(x, "ASPHALT_SERVICE") for x in v.values[1].args)
-        rep.check("C16.R4", ok, F, svc_assign[0], "--service wins over ASPHALT_SERVICE", f"the explicit service is chosen as `{ast.unparse(v)}`: the environment variable overrides --service (or is ignored)")
+    for n in env_defs:
+        v = n.ast.value
+        is_env = lambda e: isinstance(e, ast.Call) and call_name(e) in ("getenv", "get") and any(is_const(x, "ASPHALT_SERVICE") for x in e.args)  # noqa: E731
+        if isinstance(v, ast.BoolOp) and isinstance(v.op, ast.Or):
+            ok = len(v.values) == 2 and isinstance(v.values[0], ast.Name) and v.values[0].id == service_p and is_env(v.values[1])
+            rep.check("C16.R4", ok, F, n.ast, "--service wins over ASPHALT_SERVICE", f"the explicit service is chosen as `{ast.unparse(v)}`: the environment variable overrides --service (or is ignored)")
+        elif is_env(v):
+            ok = facts.implied(n.id, ast.Name(id=service_p, ctx=ast.Load()), False) or facts.implied(n.id, ast.parse(f"{service_p} is None", mode="eval").body, True)
+            rep.check("C16.R4", ok, F, n.ast, "ASPHALT_SERVICE is consulted only when --service was not given", "the environment variable is read although --service was given: it overrides the option")
+        else:
+            rep.unrecognised("C16.R4", F, n.ast, f"`{service_p}` is reassigned from `{ast.unparse(v)}`")
     services_v = None
     if services_pop:
         sp_stmt = services_pop[0].ast
@@ -260,41 +270,72 @@ def run(ctx) -> None:
             return "default"
         return "?" + t
 
-    ladder_if = None
-    for n in walk_own(F.node):
-        if isinstance(n, ast.If) and classify(n.test) in ("empty", "named", "single", "default") and ladder_if is None:
-            # top of the chain: not itself in an orelse of another ladder If
-            ladder_if = n
-    rows = []
-    cur = ladder_if
-    while cur is not None:
-        rows.append((classify(cur.test), cur.body, cur))
-        if len(cur.orelse) == 1 and isinstance(cur.orelse[0], ast.If):
-            cur = cur.orelse[0]
-        else:
-            rows.append(("else", cur.orelse, cur))
-            cur = None
+    # decision list read off the CFG: starting at the first ladder test, follow the FALSE
+    # edges; each classified test contributes a row whose action is its TRUE side
+    ladder_tests = [t for t in cfg.live_nodes() if t.kind == "test" and classify(t.ast) in ("empty", "named", "single", "default") and t.id in cfg.reach([services_pop[0].id] if services_pop else [cfg.entry])]
+    ladder_tests.sort(key=lambda t: t.lineno)
+    rows = []  # (kind, region nodes of the action, report ast)
+    if ladder_tests:
+        seen_ids = set()
+        cur = ladder_tests[0]
+        while cur is not None and cur.id not in seen_ids:
+            seen_ids.add(cur.id)
+            kind = classify(cur.ast)
+            t_side = cfg.reach([d for d, lab in cur.succ if lab == "t"], avoid=[cur.id], edge_ok=lambda s_, d_, lab: lab not in ("e", "h"))
+            rows.append((kind, t_side, cur.ast, cur))
+            # next ladder test reachable on the false side without passing another ladder test
+            f_side = cfg.reach([d for d, lab in cur.succ if lab == "f"], avoid=[cur.id] + [x.id for x in ladder_tests if x.id != cur.id], edge_ok=lambda s_, d_, lab: lab not in ("e", "h"))
+            nxt = [x for x in ladder_tests if x.id not in seen_ids and any(p_ in f_side or p_ == cur.id for p_, lab in x.pred)]
+            nxt = [x for x in nxt if x.id in cfg.reach([d for d, lab in cur.succ if lab == "f"], avoid=[cur.id], edge_ok=lambda s_, d_, lab: lab not in ("e", "h"))]
+            if nxt:
+                cur = min(nxt, key=lambda t: t.lineno)
+            else:
+                rows.append(("else", f_side, cur.ast, cur))
+                cur = None
     kinds = [r[0] for r in rows]
     ok_order = kinds in (["empty", "named", "single", "default", "else"], ["named", "empty", "single", "default", "else"])
-    rep.check("C16.R4", ok_order, F, ladder_if if ladder_if is not None else F.node, "the selection ladder is: none -> error; named -> that one; only one -> it; 'default' -> it; else error", f"the selection ladder is {kinds}: e.g. a named service that does not exist is no longer an error when it is decided after 'only one defined', or precedence between the rules changes")
+    rep.check("C16.R4", ok_order, F, rows[0][2] if rows else F.node, "the selection ladder is: none -> error; named -> that one; only one -> it; 'default' -> it; else error", f"the selection ladder is {kinds}: e.g. a named service that does not exist is no longer an error when it is decided after 'only one defined', or precedence between the rules changes")
     rep.floor("C16.R4", len(rows), 5)
 
+    def region_nodes(region):
+        return [cfg.nodes[i] for i in region]
+
+    def first_action(region, test_node, label):
+        """statements of the action of a row: nodes reachable from that side before the service merge"""
+        stop = svc_merge[1].id if svc_merge[1] is not None else None
+        out = []
+        for n in region_nodes(region):
+            if stop is not None and n.id in cfg.reach([stop]):
+                continue
+            out.append(n)
+        return out
+
+    def raises_click_nodes(nodes) -> bool:
+        return any(n.kind == "stmt" and isinstance(n.ast, ast.Raise) and "ClickException" in ast.unparse(n.ast) for n in nodes)
+
+    for kind, region, node, tnode in rows:
+        if kind != "else":
+            # include the exceptional continuations of the action (e.g. `except KeyError: raise ClickException`)
+            region = cfg.reach([d for d, lab in tnode.succ if lab == "t"], avoid=[tnode.id])
+        acts = first_action(region, tnode, "t")
+        if kind in ("empty", "else"):
+            reaches_merge = svc_merge[1] is not None and svc_merge[1].id in region
+            rep.check("C16.R4", raises_click_nodes(acts) and not reaches_merge, F, node, f"row '{kind}' fails with a ClickException and starts nothing", f"row '{kind}' does not fail with an error")
+        elif kind == "named":
+            sub = [x for n in acts if cfg.own_ast(n) is not None for x in iter_own(cfg.own_ast(n)) if isinstance(x, ast.Subscript) and isinstance(x.value, ast.Name) and x.value.id == services_v and isinstance(x.slice, ast.Name) and x.slice.id == service_p]
+            getc = [x for n in acts if cfg.own_ast(n) is not None for x in iter_own(cfg.own_ast(n)) if isinstance(x, ast.Call) and call_name(x) == "get" and isinstance(x.func.value, ast.Name) and x.func.value.id == services_v]
+            handled = raises_click_nodes(acts)
+            rep.check("C16.R4", bool(sub or getc) and handled, F, node, "row 'named': that service, or an error if it does not exist", "a named service that does not exist is not reported as an error (or another service is used)")
+        elif kind == "single":
+            txt = " ".join(ast.unparse(cfg.own_ast(n)) for n in acts if cfg.own_ast(n) is not None and n.kind == "stmt")
+            rep.check("C16.R4", "values()" in txt and ("next(iter(" in txt or "[0]" in txt), F, node, "row 'only one': that service", "the single defined service is not the one selected")
+        elif kind == "default":
+            sub = [x for n in acts if cfg.own_ast(n) is not None for x in iter_own(cfg.own_ast(n)) if isinstance(x, ast.Subscript) and is_const(x.slice, "default")]
+            rep.check("C16.R4", bool(sub), F, node, "row 'default': services['default']", "the 'default' row does not select services['default']")
+    ladder_if = rows[0][3] if rows else None
     def raises_click(body) -> bool:
         return any(isinstance(x, ast.Raise) and "ClickException" in ast.unparse(x) for st in body for x in ast.walk(st))
 
-    for kind, body, node in rows:
-        if kind in ("empty", "else"):
-            rep.check("C16.R4", raises_click(body) and not any(isinstance(x, ast.Assign) for st in body for x in ast.walk(st)), F, node, f"row '{kind}' fails with a ClickException", f"row '{kind}' does not fail with an error")
-        elif kind == "named":
-            sub = [x for st in body for x in ast.walk(st) if isinstance(x, ast.Subscript) and isinstance(x.value, ast.Name) and x.value.id == services_v and isinstance(x.slice, ast.Name) and x.slice.id == service_p]
-            handled = any(isinstance(x, ast.ExceptHandler) and x.type is not None and "KeyError" in ast.unparse(x.type) and raises_click(x.body) for st in body for x in ast.walk(st)) or any(isinstance(x, ast.If) and raises_click(x.body) for st in body for x in ast.walk(st))
-            rep.check("C16.R4", bool(sub) and handled, F, node, "row 'named': that service, or an error if it does not exist", "a named service that does not exist is not reported as an error (or another service is used)")
-        elif kind == "single":
-            txt = " ".join(ast.unparse(st) for st in body)
-            rep.check("C16.R4", "values()" in txt and ("next(iter(" in txt or "[0]" in txt), F, node, "row 'only one': that service", "the single defined service is not the one selected")
-        elif kind == "default":
-            sub = [x for st in body for x in ast.walk(st) if isinstance(x, ast.Subscript) and is_const(x.slice, "default")]
-            rep.check("C16.R4", bool(sub), F, node, "row 'default': services['default']", "the 'default' row does not select services['default']")
     # error rows never reach run_application
     for n in cfg.live_nodes():
         if n.kind == "stmt" and isinstance(n.ast, ast.Raise):
@@ -312,9 +353,10 @@ def run(ctx) -> None:
     else:
         body = legacy[0].body
         sd = [x for st in body for x in ast.walk(st) if isinstance(x, ast.Call) and call_name(x) == "setdefault" and x.args and is_const(x.args[0], "default")]
-        rep.check("C16.R5", bool(sd) and isinstance(sd[0].func.value, ast.Name) and sd[0].func.value.id == services_v, F, legacy[0], "a top-level component becomes service 'default' only if none exists (setdefault)", "a top-level component overrides an explicitly defined 'default' service (or is ignored)")
+        guarded = [x for st in body for x in ast.walk(st) if isinstance(x, ast.If) and isinstance(x.test, ast.Compare) and is_const(x.test.left, "default") and isinstance(x.test.ops[0], ast.NotIn) and services_v in names_in(x.test.comparators[0]) and any(isinstance(b, ast.Assign) and isinstance(b.targets[0], ast.Subscript) and is_const(b.targets[0].slice, "default") for b in x.body)]
+        rep.check("C16.R5", (bool(sd) and isinstance(sd[0].func.value, ast.Name) and sd[0].func.value.id == services_v) or bool(guarded), F, legacy[0], "a top-level component becomes service 'default' only if none exists (setdefault)", "a top-level component overrides an explicitly defined 'default' service (or is ignored)")
         ln = node_of(legacy[0].test)
-        lad = node_of(ladder_if.test) if ladder_if is not None else None
+        lad = ladder_if
         rep.check("C16.R5", ln is not None and lad is not None and cfg.dominates(ln.id, lad.id), F, legacy[0], "the legacy key is folded in before the service is selected", "the legacy key is handled after service selection")
 
     # ------------------------------------------------------------------ R7 hand-off
